@@ -57,7 +57,7 @@ def strategy(draw):
             "alpha": draw(st.sampled_from([0.001, 0.05, 0.5, 0.9, 0.05])), "boots": draw(st.sampled_from([10, 50, 100, 300])),
             "smoothed": draw(st.booleans()), "skip_low": draw(st.booleans()),
             "extra_empty_chrom": draw(st.booleans()), "index": draw(st.sampled_from([[0, 1], [0, 1], [5, 2]])),
-            "bt_alpha": draw(st.sampled_from([0.005, 0.05, 0.5])), "target_only": draw(st.booleans()),
+            "bt_alpha": draw(st.sampled_from([0.005, 0.05, 0.5, 0.05, 1e-16, 1e-40])), "target_only": draw(st.booleans()),
             "straddle": draw(st.lists(st.booleans(), min_size=12, max_size=12)), "full_weight": draw(st.booleans())}
 
 
@@ -321,7 +321,9 @@ def check_case(case):
         if q >= case["bt_alpha"] and not edge and key in got:
             bad("bintest:set", f"bin {key} adjusted p {q!r} >= alpha {case['bt_alpha']} returned (reported p {got[key]!r})")
             break
-        if key in got and not _same(got[key], q, 1e-9) and abs(got[key] - q) > 1e-300:
+        # relative agreement: a tail probability of 1e-80 is a value like any other (seeded change C17h computed the
+        # tail as 1 - cdf(|z|), which cancels to exactly 0 beyond |z| = 8.3)
+        if key in got and abs(got[key] - q) > 1e-7 * max(abs(q), abs(got[key])) and max(abs(q), abs(got[key])) > 1e-300:
             bad("bintest:p", f"bin {key}: reported adjusted p {got[key]!r}, independent value {q!r}")
             break
     for key in got:
